@@ -1991,7 +1991,7 @@ theta_chain_comput_strategy(theta_chain_t *out,
     // TOC_clock(t,"splitting");
 }
 
-void
+int
 theta_chain_comput_strategy_faster_no_eval(theta_chain_t *out,
                                            int n,
                                            theta_couple_curve_t *E12,
@@ -2209,11 +2209,15 @@ theta_chain_comput_strategy_faster_no_eval(theta_chain_t *out,
 
     // final splitting step
     int is_split = splitting_comput(&out->last_step, &out->steps[n - 2].codomain);
-    assert(is_split);
+    if (!is_split) {
+        // the codomain is not a product of elliptic curves: the chain failed
+        return 0;
+    }
 
     // computing the curves of the codomain
     theta_product_structure_to_elliptic_product(&out->codomain, &out->last_step.B);
     // TOC_clock(t,"splitting");
+    return 1;
 }
 
 void
